@@ -24,6 +24,9 @@ EXACT = ('filtered_fourier', 'filtered_boxcar')
 NS = [64, 96, 301]
 
 
+LONG_NS = [16385, 16384, 20001, 32769, 17000]
+
+
 def nt():
     import nitime.timeseries as ts
     from nitime.analysis import FilterAnalyzer
@@ -33,13 +36,17 @@ def nt():
 def seeds(seed, tier):
     r = random.Random('C18-scale-%d' % seed)
     k = 12 if tier == 'thorough' else 3
-    return [r.randint(0, 10**6) * 3 + (i % 3) for i in range(k)]      # sd % 3 picks the length: all three every run
+    out = [r.randint(0, 10**6) * 3 + (i % 3) for i in range(k)]       # sd % 3 picks the length: all three every run
+    # long records beyond the sizes at which FFT-based routines are tempted to switch algorithm (2^14, 2^15), both parities
+    # (wave 10, C18-20): negative sd = index into LONG_NS
+    out += [-(1 + (seed + j) % len(LONG_NS)) for j in range(len(LONG_NS) if tier == 'thorough' else 2)]
+    return out
 
 
 def plan(sd):
     r = random.Random('C18-scale-plan-%d' % sd)
     nr = common.np_rng('C18', sd, 'scale')
-    n = NS[sd % 3]
+    n = LONG_NS[(-sd - 1) % len(LONG_NS)] if sd < 0 else NS[sd % 3]
     fs = r.choice([1.0, 2.0, 10.0, 250.0])
     kind = r.choice(['lowpass', 'highpass', 'bandpass'])
     a, b = r.uniform(0.15, 0.4), r.uniform(0.5, 0.8)
